@@ -35,6 +35,13 @@ def handle : List String → String
       let d := match describeLast k with
         | .ofResult => "ofResult" | .ofOther => "ofOther" | .raises => "raises"
       s!"describe={d}"
+  | ["dkind", k] =>
+    match parseKind k with
+    | none => "bad-op"
+    | some k =>
+      let d := match describeOf k with
+        | .ofResult => "ofResult" | .ofOther => "ofOther" | .raises => "raises"
+      s!"describe={d}"
   | _ => "bad-op"
 
 end Fs.Drv.Descr
